@@ -173,7 +173,7 @@ func cmdCheck(args []string) int {
 		sweepDone[sw.Name] = true
 	}
 	sigs := map[uint64]bool{}
-	var replays []string
+	var replays, unrepro []string
 	harness := ""
 	var maxWall, sumExploreWall float64
 	for i, r := range results {
@@ -212,10 +212,14 @@ func cmdCheck(args []string) int {
 			tot.Samples = append(tot.Samples, o.Samples...)
 		}
 		replays = append(replays, o.Violations...)
+		unrepro = append(unrepro, o.Unreproducible...)
 		if o.WallS > maxWall {
 			maxWall = o.WallS
 		}
 		sumExploreWall += o.ExploreWallS
+	}
+	if harness == "" && len(unrepro) > 0 && len(replays) == 0 {
+		harness = fmt.Sprintf("NONDETERMINISM: %d runs showed a violation (first: %s) that their tape alone does not reproduce in a fresh process, and no run showed a reproducible one: the outcome depends on something the tape does not decide", len(unrepro), unrepro[0])
 	}
 	if harness != "" {
 		fmt.Println("HARNESS: worker failure (no verdict):")
@@ -310,25 +314,25 @@ func cmdCheck(args []string) int {
 		return int(float64(n) / secs * 3600)
 	}
 	cov := map[string]interface{}{
-		"evaluations":         tot.Evaluations,
-		"distinct_nontrivial": len(sigs),
-		"rule":                p.Rule,
-		"samples":             samples,
-		"nontrivial_runs":     tot.NonTrivial,
-		"distinct_measure":    "number of distinct 64-bit case/interleaving signatures among non-trivial runs, union over workers" + capNote(tot.SigsCapped),
-		"explore_runs":        tot.ExploreRuns,
-		"seeds":               tot.Seeds,
-		"runs_per_hour":       perHour(tot.Evaluations, wall),
-		"seeds_per_hour":      perHour(tot.Seeds, wall),
-		"simulated_time":      map[string]interface{}{"unit": "seam events / scheduler steps (the code under these properties reads no clock)", "steps": tot.Steps, "logged_events": tot.Events},
-		"faults_fired":        tot.Faults,
-		"probes":              tot.Probes,
-		"per_entry_runs":      tot.PerEntry,
-		"sweeps":              sweeps,
-		"workers":             workers,
-		"real_components":     p.Real,
+		"evaluations":          tot.Evaluations,
+		"distinct_nontrivial":  len(sigs),
+		"rule":                 p.Rule,
+		"samples":              samples,
+		"nontrivial_runs":      tot.NonTrivial,
+		"distinct_measure":     "number of distinct 64-bit case/interleaving signatures among non-trivial runs, union over workers" + capNote(tot.SigsCapped),
+		"explore_runs":         tot.ExploreRuns,
+		"seeds":                tot.Seeds,
+		"runs_per_hour":        perHour(tot.Evaluations, wall),
+		"seeds_per_hour":       perHour(tot.Seeds, wall),
+		"simulated_time":       map[string]interface{}{"unit": "seam events / scheduler steps (the code under these properties reads no clock)", "steps": tot.Steps, "logged_events": tot.Events},
+		"faults_fired":         tot.Faults,
+		"probes":               tot.Probes,
+		"per_entry_runs":       tot.PerEntry,
+		"sweeps":               sweeps,
+		"workers":              workers,
+		"real_components":      p.Real,
 		"simulated_components": p.Stub,
-		"known_findings_hit":  knownHits,
+		"known_findings_hit":   knownHits,
 	}
 	if selftestNote != "" {
 		cov["determinism_selftest"] = selftestNote
